@@ -298,6 +298,21 @@ def gen_events(seed: int, n: int) -> list:
                 put_amount(ev, unit, k)
                 f = getattr(Offset, "from_" + unit)
                 evs.append(_res(ev, lambda: f(k), lambda o: o.seconds))
+            elif cc < 0.33:
+                # the standard library's durations as a unit of construction: Offset.from_timedelta truncates the fraction toward
+                # zero and checks +-18 h exactly; Duration.from_timedelta is exact
+                import datetime as _dt
+
+                base = rnd.choice([0, 64800, -64800, 1, -1, 3600, -5400, rnd.randint(-64800, 64800), rnd.randint(-90000, 90000)])
+                us = rnd.choice([0, 1, -1, 500000, -500000, 999999, -999999, rnd.randint(-999999, 999999)])
+                td = _dt.timedelta(seconds=base, microseconds=us)
+                ev = {"op": "o_from_td", "td": [td.days, td.seconds, td.microseconds]}
+                _res(ev, lambda: Offset.from_timedelta(td), lambda o: o.seconds)
+                try:
+                    ev["dur"] = T3D(Duration.from_timedelta(td))
+                except Exception as ex:  # noqa: BLE001
+                    ev["dur_exc"] = _exc(ex)
+                evs.append(ev)
             elif cc < 0.4:
                 h, m = rnd.randint(-19, 19), rnd.randint(-70, 70)
                 evs.append(_res({"op": "o_hm", "h": h, "m": m}, lambda: Offset.from_hours_and_minutes(h, m), lambda o: o.seconds))
